@@ -181,6 +181,9 @@ Call ==
           \* ... and so is the parent removing or moving the view's working directory from under it
           /\ ~(Kind = "sub" /\ c.v = 9 /\ c.op \in {"remove", "removeall", "rename"}
                /\ LET vc == wx.dir \o wx.vcwd IN Len(c.p.parts) <= Len(vc) /\ SubSeq(vc, 1, Len(c.p.parts)) = c.p.parts)
+          \* temporary names are random digits in the implementation and "~k" in the specification: where they fall
+          \* in a lexical enumeration is not comparable, so ordered enumerations are not issued once one exists
+          /\ ~(c.op \in {"walk", "glob"} /\ st.tmpn > 0)
           \* the enumeration specification (FsEnum) does not describe unreadable or unsearchable directories:
           \* Glob, WalkDir and the helpers are issued by the administrator only
           /\ ~(~IsAdmin(st) /\ c.op \in EnumOps)
